@@ -196,7 +196,8 @@ def enc(obj, table):
     raise Unsupported(f"{t.__name__} is outside the modelled universe")
 
 
-_PLACEHOLDER = re.compile("\x01H([0-9]+):([0-9,]*)\x02")
+# innermost placeholder: \x01 <kind> <content without nested placeholders> \x02
+_PLACEHOLDER = re.compile("\x01([HDSP])([^\x01\x02]*)\x02")
 
 
 def _digest(b: bytes) -> str:
@@ -206,21 +207,48 @@ def _digest(b: bytes) -> str:
     return dh.hash_buffer_hex(b)
 
 
-def resolve(pre: str, table: Table) -> str:
-    """Replace the model's digest placeholders by real digests of the bytes they denote."""
+def _pickled(kind: str, payload: str, table) -> str:
+    """`pik` of `_normalize_pickle(obj)`: digest of the pickle of the object the model describes."""
+    import ast
+    import pickle
+    if kind == "TaskRef":
+        from dask._task_spec import TaskRef
+        obj = TaskRef(ast.literal_eval(payload))
+    elif kind == "func":
+        obj = FUNCS[int(payload)]
+    else:
+        raise ValueError(kind)
+    return _digest(pickle.dumps(obj, protocol=5))
+
+
+def resolve(pre: str, table) -> str:
+    """Replace the model's placeholders (innermost first) by what the real code computes from them:
+    H digest of a byte string, D md5 token of a pre-image, S sorted list of tokens, P pickle digest."""
     def sub(m):
-        tag = int(m.group(1))
-        payload = [int(c) for c in m.group(2).split(",")] if m.group(2) else []
-        if tag == 0:
-            b = b"".join(table.items[c] for c in payload)
-        elif tag == 1:
-            b = "".join(chr(c) for c in payload).encode("utf-8", "surrogatepass")
-        elif tag == 2:
-            b = b"".join(int(c).to_bytes(8, "little", signed=True) for c in payload)
-        else:
-            raise ValueError(tag)
-        return _digest(b)
-    return _PLACEHOLDER.sub(sub, pre)
+        kind, body = m.group(1), m.group(2)
+        if kind == "H":
+            tag, _, rest = body.partition(":")
+            payload = [int(c) for c in rest.split(",")] if rest else []
+            if tag == "0":
+                b = b"".join(table.items[c] for c in payload)
+            elif tag == "1":
+                b = "".join(chr(c) for c in payload).encode("utf-8", "surrogatepass")
+            elif tag == "2":
+                b = b"".join(int(c).to_bytes(8, "little", signed=True) for c in payload)
+            else:
+                raise ValueError(tag)
+            return _digest(b)
+        if kind == "D":
+            return hashlib.md5(body.encode(), usedforsecurity=False).hexdigest()
+        if kind == "S":
+            return "[" + ", ".join(sorted(body.split("\x03") if body else [])) + "]"
+        k, _, payload = body.partition(":")
+        return _pickled(k, payload, table)
+    while True:
+        new = _PLACEHOLDER.sub(sub, pre)
+        if new == pre:
+            return new
+        pre = new
 
 
 def model_token(ctx, values, kwargs=None):
@@ -235,6 +263,102 @@ def model_token(ctx, values, kwargs=None):
         raise RuntimeError(f"model answered {pre!r}")
     pre = resolve(pre, table)
     return hashlib.md5(pre.encode(), usedforsecurity=False).hexdigest(), pre
+
+
+# ----------------------------------------------------------------------------------------------
+# task-spec nodes (C11)
+# ----------------------------------------------------------------------------------------------
+
+def f_call(*args, **kwargs):
+    return ("call", 0, args, tuple(sorted(kwargs.items())))
+
+
+def g_call(*args, **kwargs):
+    return ("call", 1, args, tuple(sorted(kwargs.items())))
+
+
+def h_call(*args, **kwargs):
+    return ("call", 2, args, tuple(sorted(kwargs.items())))
+
+
+FUNCS = [f_call, g_call, h_call]
+
+
+def build_node(spec):
+    """Node spec -> real dask object.
+    ["lit", valspec] ["ref", keyspec] ["alias", keyspec, targetspec] ["data", valspec]
+    ["task", findex, [argspec…], [[name, argspec]…]] ["List"|"Tuple"|"Set", [argspec…]] ["Dict", [[k, v]…]]"""
+    from dask import _task_spec as ts
+    t = spec[0]
+    if t == "lit":
+        return build(spec[1])
+    if t == "ref":
+        return ts.TaskRef(build(spec[1]))
+    if t == "alias":
+        return ts.Alias(build(spec[1]), build(spec[2]))
+    if t == "data":
+        return ts.DataNode(spec[2] if len(spec) > 2 else "dkey", build(spec[1]))
+    if t == "task":
+        return ts.Task(spec[4] if len(spec) > 4 else "tkey", FUNCS[spec[1]], *[build_node(a) for a in spec[2]],
+                       **{k: build_node(v) for k, v in spec[3]})
+    if t in ("List", "Tuple", "Set"):
+        cls = getattr(ts, t)
+        args = [build_node(a) for a in spec[1]]
+        if len(args) == 1 and isinstance(args[0], cls.klass) and t != "Set":
+            return cls(cls.klass([args[0]]))   # the constructor unpacks a single argument of its own class
+        return cls(*args)
+    if t == "Dict":
+        flat = []
+        for k, v in spec[1]:
+            flat += [build_node(k), build_node(v)]
+        return ts.Dict(*flat)
+    raise ValueError(spec)
+
+
+def enc_node(obj, table):
+    """real dask node / argument -> s-expression of the Lean `Node` (reads what the object really holds)."""
+    from dask import _task_spec as ts
+    if isinstance(obj, ts.Dict):
+        a = obj.args
+        return [Sym("dict"), [[enc_node(a[i], table), enc_node(a[i + 1], table)] for i in range(0, len(a), 2)]]
+    if isinstance(obj, ts.NestedContainer):
+        kind = {"List": "list", "Tuple": "tuple", "Set": "set"}[type(obj).__name__]
+        return [Sym("cont"), Sym(kind), [enc_node(a, table) for a in obj.args]]
+    if isinstance(obj, ts.Task):
+        if type(obj) is not ts.Task:
+            raise Unsupported(type(obj).__name__)
+        return [Sym("task"), FUNCS.index(obj.func), [enc_node(a, table) for a in obj.args],
+                [[k, enc_node(v, table)] for k, v in obj.kwargs.items()]]
+    if isinstance(obj, ts.Alias):
+        return [Sym("alias"), enc(obj.key, table), enc(obj.target, table)]
+    if isinstance(obj, ts.DataNode):
+        return [Sym("data"), enc(obj.value, table)]
+    if isinstance(obj, ts.TaskRef):
+        return [Sym("ref"), enc(obj.key, table)]
+    return [Sym("lit"), enc(obj, table)]
+
+
+def model_node_token(ctx, obj):
+    table = Table()
+    pre = ctx.lean(Sym("nodepre"), enc_node(obj, table))
+    if not isinstance(pre, str) or isinstance(pre, Sym):
+        raise RuntimeError(f"model answered {pre!r}")
+    pre = resolve(pre, table)
+    return hashlib.md5(pre.encode(), usedforsecurity=False).hexdigest(), pre
+
+
+def canon_repr(v) -> str:
+    """repr with set elements / dict items in a canonical order (sets sorted by repr, dicts by insertion)."""
+    if isinstance(v, (set, frozenset)):
+        items = sorted(canon_repr(e) for e in v)
+        return "{" + ", ".join(items) + "}" if items else "set()"
+    if isinstance(v, list):
+        return "[" + ", ".join(canon_repr(e) for e in v) + "]"
+    if isinstance(v, tuple):
+        return "(" + ", ".join(canon_repr(e) for e in v) + ("," if len(v) == 1 else "") + ")"
+    if isinstance(v, dict):
+        return "{" + ", ".join(sorted(canon_repr(k) + ": " + canon_repr(x) for k, x in v.items())) + "}"
+    return repr(v)
 
 
 # ----------------------------------------------------------------------------------------------
